@@ -196,6 +196,15 @@ def load_known():
         return json.load(f).get("findings", [])
 
 
+def load_known_part(engine):
+    """Known-finding entries a component engine keeps in design_parts/<engine>.findings.json."""
+    path = os.path.join(ROOT, "design_parts", engine + ".findings.json")
+    if not os.path.exists(path):
+        return []
+    with open(path) as f:
+        return json.load(f).get("findings", [])
+
+
 def classify(prop, violations, known=None):
     """Split violations of `prop` into (known, new). A violation is a dict with at least
     p (property), m (monitor), cause. It is known only if an entry with status=known has the same
